@@ -48,6 +48,7 @@ static void life(const Cycle& c, bool enabled, bool solo, Acquire acquire, Acqui
     uint64_t lc0 = vrf::stats().lock_calls, cv0 = vrf::stats().cv_waits;
     vrf::ctx().block_objs.clear();
     vrf::ctx().max_timed_request_ns = 0;
+    vrf::ctx().timed_out_total_ns = 0;
     auto t0 = std::chrono::steady_clock::now();
     H h = acquire();
     auto el = std::chrono::steady_clock::now() - t0;
@@ -69,6 +70,10 @@ static void life(const Cycle& c, bool enabled, bool solo, Acquire acquire, Acqui
     }
     if ((c.form == Q_TRY_FOR || c.form == Q_TRY_UNTIL) && vrf::ctx().max_timed_request_ns > static_cast<int64_t>(c.dur_us) * 1000 + 1000000)
         fail("oracle:timed_attempt_asked_the_mutex_for_a_longer_wait_than_given", c, "\"" + std::to_string(vrf::ctx().max_timed_request_ns / 1000) + " us\"");
+    // ... and the waits that gave up, taken together, fit into the caller's time-out: an implementation that waits in
+    // several stages has to share one budget between them
+    if ((c.form == Q_TRY_FOR || c.form == Q_TRY_UNTIL) && vrf::ctx().timed_out_total_ns > std::max<int64_t>(0, static_cast<int64_t>(c.dur_us)) * 1000 + 1000000)
+        fail("oracle:timed_attempt_waited_longer_in_total_than_given", c, "\"" + std::to_string(vrf::ctx().timed_out_total_ns / 1000) + " us\"");
     (void)el;
     if (!enabled) {
         if (!h) fail("oracle:null_handle_in_disabled_mode", c);
